@@ -474,7 +474,12 @@ func (root *Root) replaceArgVars(vars map[string]interface{}, v interface{}, at 
 			}
 		}
 	case map[string]interface{}:
-		if it, _ := BaseType(at).(*Input); it != nil {
+		it, _ := unwrapNonNull(at).(*Input)
+		if it == nil && at != nil {
+			// An object can only be the value of an input object type.
+			ea = append(ea, resWarnp(nil, "%s", newCoerceErr(tv, at.Name())))
+		}
+		if it != nil {
 			// Substitute into a copy, the literal belongs to the parsed request.
 			m := make(map[string]interface{}, len(tv))
 			for k, v := range tv {
@@ -491,8 +496,11 @@ func (root *Root) replaceArgVars(vars map[string]interface{}, v interface{}, at 
 		}
 	case []interface{}:
 		var mt Type
-		if lt, _ := at.(*List); lt != nil {
+		if lt, _ := unwrapNonNull(at).(*List); lt != nil {
 			mt = lt.Base
+		} else if at != nil {
+			// A list can only be the value of a list type.
+			ea = append(ea, resWarnp(nil, "%s", newCoerceErr(tv, at.Name())))
 		}
 		// Substitute into a copy, the literal belongs to the parsed request.
 		l := make([]interface{}, len(tv))
@@ -502,10 +510,10 @@ func (root *Root) replaceArgVars(vars map[string]interface{}, v interface{}, at 
 		}
 		val = l
 	case Symbol:
-		bt := BaseType(at)
-		if et, _ := bt.(*Enum); et != nil {
-			if _, has := et.values.dict[string(tv)]; !has {
-				ea = append(ea, resWarnp(nil, "%s is not a valid enum value in %s", tv, et.N))
+		// Only an enum type, which also checks for membership, accepts a symbol.
+		if ic, _ := at.(InCoercer); ic != nil { // validated in SDL validation
+			if _, err = ic.CoerceIn(val); err != nil {
+				ea = append(ea, resWarnp(nil, "%s", err))
 			}
 		}
 	default:
@@ -516,6 +524,14 @@ func (root *Root) replaceArgVars(vars map[string]interface{}, v interface{}, at 
 		}
 	}
 	return
+}
+
+// unwrapNonNull returns the base of a NonNull type and any other type as is.
+func unwrapNonNull(t Type) Type {
+	if nn, _ := t.(*NonNull); nn != nil {
+		return nn.Base
+	}
+	return t
 }
 
 func (root *Root) resolveField(
